@@ -86,6 +86,15 @@ RULE = ('wrap: cells = products of dyadic shears/permutations/diagonal powers of
         '1e-13..1e-4 off them; positions as float64 / lists / tuples / python ints / int64 / int32 / float32 / Fortran / '
         'strided view / read-only, pbc and box in several spellings; exactly singular cells (refusal); non-default '
         'working units (bitwise the same result); two systems with the default box. '
+        'round 4: every float cell generator also draws (1 in 10, plus dedicated sweeps) cells ONE of whose lattice angles - '
+        'alpha, beta, gamma in turn, near 0 and near 180 - is 0.004..2 degrees from 0 / 180 (log-uniform; realisable by '
+        'construction: two vectors at that angle in a plane, the third at 15..75 degrees from its normal), in any orientation and '
+        'of either handedness, and cells turned by exactly / nearly 180 degrees (a vector along -x); single layers (all atoms '
+        'with the same coordinate along one direction); histories edit the periodicity setting IN PLACE (system.pbc[k] = v with '
+        'python / numpy bool, slice, negative index, whole array; the caller\'s own bool array handed to the constructor or the '
+        'setter) between wraps / normalizes, with atoms moved out of the cell again in between, setpbc in tuple / list / int / '
+        'bool-array / int-array form; getters read in histories are compared with exact values (lengths, angles by atan2 of '
+        'the exact cross and dot products, volume, is_lammps_norm decided on the numbers). '
         'distinct = distinct canonical driver line; '
         'non-trivial = at least one atom outside the cell or a left-handed/non-normal cell')
 ASSUMPTIONS = [
@@ -106,6 +115,12 @@ ASSUMPTIONS = [
     'reciprocal vectors: this is the discipline runC_erase needs; the correspondence on histories checks that the '
     'implementation follows it',
     'the cell is non-singular (det vects != 0)',
+    'arccos maps [-1, 1] strictly decreasingly onto [180, 0] degrees, so the refusal of Box.set_abc (an angle <= 0 or >= 180) '
+    'is the test -1 < cos < 1 on the cosines vect_angle forms (angleGuard); normalize_never_refuses shows it never fires for '
+    'a non-singular cell',
+    'normalize: the rounding bound uses max(kappa, kabc), kabc = max(b/ly, c/lz) (heights of b over a and of c over the a-b '
+    'plane): ly^2 = b^2 - xy^2 and lz^2 = c^2 - xz^2 - yz^2 are differences with relative error u b^2/ly^2, u c^2/lz^2 whatever '
+    'the orientation of the cell (kappa of a LAMMPS-oriented cell with a tiny lz is of order 1)',
 ]
 TRUSTED = ['numpy (inner, dot, floor, min/max, inv, lstsq) inside the implementation run',
            'rational square root of the driver (Nat.sqrt, error < 2^-160)']
@@ -1153,6 +1168,11 @@ def _getters_bad(values, state):
             scale = _sqrt_fr(sum(x * x for x in V[0])) * _sqrt_fr(sum(x * x for x in V[1])) * _sqrt_fr(sum(x * x for x in V[2]))
             if not (abs(float(v) - float(det)) <= 32 * U * scale if math.isfinite(scale) and scale > 0 else True):
                 return f'box.volume reads {float(v)!r}, the volume of the cell is {float(det)!r}'
+        if nm == 'is_lammps_norm':
+            W = state['vects']
+            want = W[0][1] == 0 and W[0][2] == 0 and W[1][2] == 0 and W[0][0] > 0 and W[1][1] > 0 and W[2][2] > 0
+            if bool(v) != want:
+                return f'box.is_lammps_norm() is {bool(v)} for the cell {W}'
         if nm in ('lx', 'xy') and float(v) != state['vects'][{'lx': 0, 'xy': 1}[nm]][0]:
             return f'box.{nm} reads {float(v)!r}, the cell is {state["vects"]}'
     return None
@@ -2325,8 +2345,14 @@ def _norm_clauses_sys(system, fail, ret='kw', seps=0.0):
     N, no = _fm(new.box.vects), _fv(new.box.origin)
     sc = max(abs(float(x)) for r in V for x in r)
     # right-handed LAMMPS-compatible cell
-    if not new.box.is_lammps_norm() or not (N[0][1] == 0 and N[0][2] == 0 and N[1][2] == 0 and _det(N) > 0):
-        return fail('normalize:not-lammps-normal', f'new cell {new.box.vects.tolist()} is not a right-handed LAMMPS cell')
+    # (decided on the numbers, not by asking the box: avect = [lx, 0, 0], bvect = [xy, ly, 0], cvect = [xz, yz, lz] with
+    #  lx, ly, lz > 0; what Box.is_lammps_norm() says about it is a getter value like any other)
+    normal = N[0][1] == 0 and N[0][2] == 0 and N[1][2] == 0 and N[0][0] > 0 and N[1][1] > 0 and N[2][2] > 0
+    if not normal:
+        return fail('normalize:not-lammps-normal', f'new cell {new.box.vects.tolist()} is not a right-handed LAMMPS cell '
+                    '(upper triangle zero, lx, ly, lz > 0)')
+    if not new.box.is_lammps_norm():
+        return fail('box:getter-value', f'Box.is_lammps_norm() is False for the LAMMPS-compatible cell {new.box.vects.tolist()}')
     kap = max(_kappa(V), _kappa(N), _kabc(V))
     ub = CN * U * kap * kap            # sqrt/arccos/cos/division of the cell parameters: conditioning enters twice
     k2 = max(_kappa2(V), _kappa2(N))
